@@ -2,9 +2,11 @@ package checks
 
 import (
 	"fmt"
+	"os"
 	"reflect"
 	"sort"
 	"strings"
+	"sync"
 	"testing"
 	"time"
 
@@ -34,6 +36,10 @@ type C18Plan struct {
 	Links      []c18Link  `json:"links"`
 	ServiceAdS int        `json:"service_ad_s"`
 	LateJoin   int        `json:"late_join"` // node index that joins late (-1: none)
+	// that many times a listener is closed by its owner in the middle of a periodic advertisement round of its
+	// node, between the collection of the advertisements and their transmission
+	CloseInAdRound int `json:"close_in_ad_round"`
+	ReorderMs      int `json:"reorder_ms"` // datagram links deliver out of order within this window (0: in order)
 	Events     []c18Event `json:"events"`
 	Shrink     []string   `json:"_shrink"`
 }
@@ -81,7 +87,15 @@ func genC18(seed uint64, tier string) any {
 			open[key] = true
 		}
 		p.Events = append(p.Events, ev)
+		if ev.Kind == "close" && r.Bool(0.35) {
+			// closed and opened again at once: the withdrawal and the new advertisement race through the mesh
+			at += simnet.Pick(r, []int{1, 3, 20, 120})
+			p.Events = append(p.Events, c18Event{AtMs: at, Kind: "open", Node: ev.Node, Svc: ev.Svc, Strm: ev.Strm, Tag: simnet.Pick(r, []string{"", "x", "y", "z"})})
+			open[key] = true
+		}
 	}
+	p.CloseInAdRound = r.Range(0, 3)
+	p.ReorderMs = simnet.Pick(r, []int{0, 0, 30, 250, 7000}) // (a new listener is advertised 5 s after it was opened: only a longer delay lets its predecessor's withdrawal arrive after it)
 	if r.Bool(0.12) && len(p.Events) > 2 {
 		// a node dies without closing anything: its services are not "open on a live node" any more
 		i := r.Range(1, len(p.Events)-1)
@@ -114,7 +128,7 @@ func runC18(t *testing.T, planAny any, res *simnet.Result) {
 			}
 			name := fmt.Sprintf("L%d", i+1)
 			l := m.AddLink(simnet.LinkCfg{Name: name, Latency: time.Duration(pl.LatMs)*time.Millisecond + time.Duration(simnet.H(res.Seed, "lat", name)%99991)*time.Nanosecond,
-				FIFO: true, Framed: i%2 == 1}, ids[pl.A], ids[pl.B], simnet.DyadicCost(1, i*13+3))
+				FIFO: i%2 == 1 || p.ReorderMs == 0, Jitter: time.Duration(p.ReorderMs) * time.Millisecond, Framed: i%2 == 1}, ids[pl.A], ids[pl.B], simnet.DyadicCost(1, i*13+3))
 			links = append(links, l)
 			if p.LateJoin >= 0 && (pl.A == p.LateJoin || pl.B == p.LateJoin) {
 				continue
@@ -125,13 +139,42 @@ func runC18(t *testing.T, planAny any, res *simnet.Result) {
 		type okey struct{ obs, owner, svc string }
 		lastTime := map[okey]time.Time{}
 		withdrawnAt := map[okey]time.Time{} // newest withdrawal time handed to the observer
+		listed := map[okey]time.Time{}
 		sample := func() {
 			for _, id := range ids {
 				n := m.Nodes[id]
 				if !n.Up() {
 					continue
 				}
-				for _, ad := range n.Net().Status().Advertisements {
+				now := map[okey]bool{}
+				ads := n.Net().Status().Advertisements
+				for _, ad := range ads {
+					now[okey{id, ad.NodeID, ad.Service}] = true
+				}
+				for kk, t := range listed {
+					if kk.obs != id || now[kk] {
+						continue
+					}
+					// an entry went away: only a withdrawal at least as new as the entry may do that
+					if wt, ok := withdrawnAt[kk]; !ok || wt.Before(t) {
+						if os.Getenv("VERIF_DEBUG") != "" {
+							for _, r := range w.Wire() {
+								if r.Ad != nil && r.Ad.NodeID == kk.owner && r.Ad.Service == kk.svc {
+									fmt.Fprintf(os.Stderr, "DBG %v %s>%s cancel=%v t=%d fate=%s delivered=%v\n", r.At, r.From, r.To, r.Ad.Cancel, r.Ad.Time.UnixNano(), r.Fate, w.DeliveredAt(r))
+								}
+							}
+							fmt.Fprintf(os.Stderr, "DBG now=%v\n", w.Now())
+						}
+						res.Violate("c18:newer-advertisement-removed", "%s no longer lists %s/%s (advertised at %d); the newest withdrawal it has been handed is from %d", id, kk.owner, kk.svc, t.UnixNano(), wt.UnixNano())
+					}
+					delete(listed, kk)
+				}
+				for _, ad := range ads {
+					if ad.NodeID != id {
+						listed[okey{id, ad.NodeID, ad.Service}] = ad.Time
+					}
+				}
+				for _, ad := range ads {
 					if ad.NodeID == id {
 						continue // own entries carry "now"
 					}
@@ -160,8 +203,28 @@ func runC18(t *testing.T, planAny any, res *simnet.Result) {
 				}
 			}
 		}
+		var omu sync.Mutex // (the close-in-round action runs on a goroutine of the node)
 		open := map[string]c18Closer{}
 		dead := map[string]bool{}
+		defer installYields(res.Seed, 0, "none")()
+		closesLeft := p.CloseInAdRound
+		setYieldAction("svcad.send", func(nodeSvc string) {
+			key := strings.Replace(nodeSvc, "|", "/", 1)
+			omu.Lock()
+			c := open[key]
+			if c == nil || closesLeft <= 0 || simnet.H(res.Seed, "close-in-round", key, closesLeft)%2 != 0 {
+				omu.Unlock()
+				return
+			}
+			closesLeft--
+			delete(open, key)
+			omu.Unlock()
+			time.Sleep(time.Millisecond)
+			_ = c.Close()
+			time.Sleep(time.Millisecond) // (time passes between any two actions of a real node)
+			w.Event("close %s (inside an advertisement round)", key)
+			w.Count("fault_close_inside_ad_round", 1)
+		})
 		tags := map[string]map[string]string{}
 		types := map[string]byte{}
 		evs := append([]c18Event(nil), p.Events...)
@@ -209,7 +272,10 @@ func runC18(t *testing.T, planAny any, res *simnet.Result) {
 			}
 			switch ev.Kind {
 			case "open":
-				if open[key] != nil {
+				omu.Lock()
+				isOpen := open[key] != nil
+				omu.Unlock()
+				if isOpen {
 					continue
 				}
 				var tg map[string]string
@@ -221,13 +287,17 @@ func runC18(t *testing.T, planAny any, res *simnet.Result) {
 					if err != nil {
 						continue
 					}
+					omu.Lock()
 					open[key], types[key] = li, netceptor.ConnTypeStream
+					omu.Unlock()
 				} else {
 					pc, err := n.Net().ListenPacketAndAdvertise(ev.Svc, tg)
 					if err != nil {
 						continue
 					}
+					omu.Lock()
 					open[key], types[key] = pc, netceptor.ConnTypeDatagram
+					omu.Unlock()
 				}
 				tags[key] = tg
 				w.Event("open %s", key)
@@ -235,17 +305,22 @@ func runC18(t *testing.T, planAny any, res *simnet.Result) {
 				if n.Up() {
 					n.Stop()
 					res.Add("probe_node_death", 1)
+					omu.Lock()
 					for kk := range open {
 						if strings.HasPrefix(kk, ids[ev.Node]+"/") {
 							delete(open, kk)
 							dead[kk] = true
 						}
 					}
+					omu.Unlock()
 				}
 			case "close":
-				if c := open[key]; c != nil {
+				omu.Lock()
+				c := open[key]
+				delete(open, key)
+				omu.Unlock()
+				if c != nil {
 					_ = c.Close()
-					delete(open, key)
 					w.Event("close %s", key)
 					res.Add("probe_withdrawals", 1)
 				}
@@ -261,8 +336,11 @@ func runC18(t *testing.T, planAny any, res *simnet.Result) {
 				}
 			}
 		}
+		omu.Lock()
+		closesLeft = 0
+		omu.Unlock()
 		// settle: one periodic round reaches everybody (plus path latency)
-		end := w.Now() + k.ServiceAd + 5*time.Second + 4*time.Second
+		end := w.Now() + k.ServiceAd + 5*time.Second + 4*time.Second + time.Duration(p.N*p.ReorderMs)*time.Millisecond
 		for w.Now() < end && !w.OverBudget() {
 			time.Sleep(200 * time.Millisecond)
 			checkpoint()
@@ -333,6 +411,7 @@ func runC18(t *testing.T, planAny any, res *simnet.Result) {
 				}
 			}
 		}
+		dumpWire(w, " ad ")
 		res.SimSeconds = w.Now().Seconds()
 		res.LogHash, res.LogLines = w.CanonicalLogHash()
 		res.Merge(w.Stats())
